@@ -398,3 +398,50 @@ class C20(Check):
         jobs.append(comp_job('life', 'LIFE[empty,D3]', {'depth': 3, 'presys': 0}, e2=10))
         jobs += split_first('life', f'LIFE[1 system,D{D}]', {'depth': D, 'presys': 1}, e2=5, max_states=2000000, max_seconds=3000)
         return jobs
+
+
+@check
+class C04(Check):
+    prop = 'C04'
+    rule = ('every well-posed serial line Source -> stations^n -> Sink, n<=2 (n=3 on a reduced alphabet in the thorough tier), '
+            'stations = handler / processor with cycle 0,1,2 (+0.5 thorough) or buffer with capacity 1,2,unbounded and delay 0,1; '
+            'source cycle 0,1,2; sink cycle 0,1; budget unbounded or 2; horizon 5; under EVERY tie-break order (exhaustive with '
+            'state matching, no injected operations); the two documented long-horizon examples are run under two deterministic '
+            'tie policies only (conformance, not exhaustive); non-trivial = a line on which a tie was broken and parts went through')
+    level_text = ('Exact agreement (dyadic grid, equality of floats) between the arrival times recorded at every station and an '
+                  'independent max-plus reference recurrence, at the end of every explored schedule of every line of the family; '
+                  'sink counts equal the reference counts.')
+    assumptions = ('ill-posed lines (zero-cycle unlimited source feeding an unbounded absorber through zero-time stations: '
+                   'infinitely many events in one instant) are excluded by a static predicate and counted',)
+
+    def nontrivial(self, r):
+        return r.get('facts', {}).get('parts_through', 0) > 0 and r.get('branching_states', 0) > 0
+
+    def jobs(self, tier):
+        from .linejobs import conformance_job
+        th = tier != 'quick'
+        jobs = []
+        self.excluded = 0
+        for sp, ok in S.ser_family(n_max=2, thorough=th):
+            if ok:
+                jobs.append(line_job(sp, ['recurrence'], e2=1, max_depth=1500))
+            else:
+                self.excluded += 1
+        if th:
+            opts = [('handler', {'cycle': 0}), ('handler', {'cycle': 1}), ('processor', {'cycle': 0}), ('processor', {'cycle': 2}),
+                    ('buffer', {'capacity': 1, 'delay': 0}), ('buffer', {'capacity': 2, 'delay': 1}),
+                    ('buffer', {'capacity': None, 'delay': 0}), ('buffer', {'capacity': 1, 'delay': 1})]
+            for sp, ok in S.ser_family(n_max=3, n_min=3, opts=opts, horizon=6):
+                if ok:
+                    jobs.append(line_job(sp, ['recurrence'], e2=1, max_depth=2500))
+                else:
+                    self.excluded += 1
+        for ex in (S.EX_SINGLE_PROCESSOR(), S.EX_BUFFER()):
+            for pol in ('first', 'last'):
+                jobs.append(conformance_job(ex, ['recurrence', 'examplecount'], pol))
+        return jobs
+
+    def extra(self, tier, outs):
+        return {'ill_posed_lines_excluded_by_predicate': getattr(self, 'excluded', 0),
+                'documented_examples': 'SingleProcessor.py=99 and BufferExample.py=10079 checked under two deterministic tie '
+                                       'policies (conformance runs, not exhaustive)'}
